@@ -17,7 +17,7 @@ PROPERTY = "C13"
 PREFIXES = ("C13.",)
 RULE = ("histories over {I initialize, X export_to_smt2, G get_parameters_description, S solve, A find_another_solution, "
         "V find_another_solution_for_variable} on ONE solver object (and two interleaved objects on one problem), "
-        "exhaustive up to length 4 (quick) on small problems {no objective, single min / max objective, two weighted "
+        "exhaustive up to length 4 (quick) on small problems {no objective, single min / max objective (also over indicators with declared bounds), two weighted "
         "objectives} x {incremental, optimize}, random to length 10. Each history is checked against a sequential model "
         "whose state is the set E of timings legitimately excluded so far: a returned schedule must lie in T(P) minus E "
         "(T(P) from fresh instances), False is legitimate only when T(P) minus E is empty (Pareto mode exempt), the only "
@@ -51,6 +51,17 @@ def problems():
         ("weighted2", base(indicators=[ind_i, ind_j], objectives=[
             {"kind": "MaximizeIndicator", "indicator": "i", "weight": 2},
             {"kind": "MaximizeIndicator", "indicator": "j", "weight": 1}])),
+        # indicators with declared bounds equal to their true range: the incremental optimiser stops as soon as the
+        # incumbent sits on the bound (a separate exit from its loop), after one or more improvement steps
+        ("max1_bounded", base(indicators=[dict(ind_j, bounds=[1, 4])],
+                              objectives=[{"kind": "MaximizeIndicator", "indicator": "j", "weight": 1}])),
+        ("min1_bounded", base(indicators=[dict(ind_j, bounds=[1, 4])],
+                              objectives=[{"kind": "MinimizeIndicator", "indicator": "j", "weight": 1}])),
+        ("max_start_bounded", fam.base(4, [fam.fx("t0", 2)], indicators=[dict(ind_i, bounds=[0, 2])],
+                                       objectives=[{"kind": "MaximizeIndicator", "indicator": "i", "weight": 1}])),
+        # utilisation carries the library's own bounds (0, 100); a variable task can fill the horizon: optimum 100
+        ("utilization", fam.base(3, [fam.vr("t0", 1, 3)], workers=W, requirements=[{"task": "t0", "resource": "w0"}],
+                                 objectives=[{"kind": "ResourceUtilization", "resource": "w0"}])),
     ]
 
 
